@@ -319,7 +319,7 @@ int __wrap_poll(struct pollfd *p, nfds_t n, int tmo)
             int fd = -1;
             if (a[0] == 'c' && a[1] != 'o') fd = find_vfd(K_CLIENT, K_CLIENT, atoi(a + 1));
             else if (!strncmp(a, "conn", 4)) fd = find_vfd(K_SOCK, K_PIPE, atoi(a + 4));
-            if (fd < 0) { tr("IGNORED %s (no such open descriptor)", line); continue; }
+            if (fd < 0) { tr("IGNORED %.60s (no such open descriptor)", line); continue; }
             struct vfd *v = vf(fd);
             char *rest = line + strlen(w) + 1 + strlen(a); while (*rest == ' ') rest++;
             if (!strcmp(w, "IN")) { k = unhex(rest, tmpb, INBUF); push_in(fd, tmpb, k); }
@@ -329,10 +329,10 @@ int __wrap_poll(struct pollfd *p, nfds_t n, int tmo)
             else if (!strcmp(w, "STALL")) v->stalled = atoi(rest);
             else if (!strcmp(w, "WCAP")) v->wcap = atol(rest);
             else if (!strcmp(w, "CONNDONE")) { if (v->cs == CS_INPROGRESS) v->cs = !strcmp(rest, "refuse-hup") ? CS_REFUSED_HUP : !strcmp(rest, "refuse-soerr") ? CS_REFUSED_SOERR : CS_OK; if (v->cs != CS_OK) v->soerr = ECONNREFUSED; }
-            else tr("IGNORED %s", line);
+            else tr("IGNORED %.60s", line);
             continue;
         }
-        tr("IGNORED %s", line);
+        tr("IGNORED %.60s", line);
     }
     if (feof(stdin)) { tr("STDIN-EOF"); fflush(out); raise(SIGTERM); }
 
